@@ -257,6 +257,8 @@ def rand_text(rng, delim, edge=None):
         return rng.choice(['a;b', 'one; two', 'x ;y'])
     if edge == 'composite-last-text-bars':
         return rng.choice(['a||b', 'A || B', '|| end'])
+    if rng.random() < 0.04:
+        return ''                      # an empty string between the delimiters is a (valid) empty text
     for _ in range(20):
         n = rng.choice([1, 1, 2, 2, 3, 4])
         s = ' '.join(rng.choice(WORDS) for _ in range(n))
